@@ -100,3 +100,59 @@ impl AddrValidate for cw_multi_test::MockApiBech32 {
 pub fn fmt_deltas(a: &crate::world::Addrs, m: &BTreeMap<(String, String), i128>) -> String {
     m.iter().map(|((ad, d), v)| format!("{}:{}:{:+}", a.name(ad), d, v)).collect::<Vec<_>>().join(" ")
 }
+
+
+/// A message that failed for a reason inside the contract's own arithmetic or one of its own
+/// queries - not a validation of the request, not an injected fault, not a frozen transfer.
+/// Returns the error text. ("Overflow: Cannot Sub", a querier error, a VM trap, a division by zero.)
+pub fn internal_failure(out: &crate::world::TxOut, step: &crate::trace::Step, pre: &crate::sim::Obs) -> Option<String> {
+    if out.ok() || step.fault.is_some() || out.report.fault_fired > 0 || out.report.frozen_fired > 0 {
+        return None;
+    }
+    // funds the sender does not have fail in the bank with the same "Cannot Sub" text
+    if let Some(s) = step.op.sender() {
+        if step.op.funds().iter().any(|f| crate::world::bal(&pre.bal, s, &f.denom) < f.amount.u128()) {
+            return None;
+        }
+    }
+    let t = out.err_text();
+    // before the epoch manager's genesis nothing epoch-dependent works: documented, not internal
+    if t.contains("genesis epoch has not started") {
+        return None;
+    }
+    let hit = ["Overflow", "overflow", "Querier contract error", "panicked", "ivide by zero", "Cannot Sub", "Cannot Add", "Cannot Mul"].iter().any(|k| t.contains(k));
+    if hit {
+        Some(t.rsplit(": ").take(3).collect::<Vec<_>>().into_iter().rev().collect::<Vec<_>>().join(": "))
+    } else {
+        None
+    }
+}
+
+/// Every position's owner tries to leave on a fork of the current state: a full close of an open
+/// position and an emergency withdrawal of any position. A refusal caused by the contract's own
+/// arithmetic or queries means the position cannot be withdrawn "at any time".
+pub fn derived_exits(c: &mut crate::sim::SimCore, obs: &crate::sim::Obs, tag: &str, cap: usize) -> crate::sim::MResult {
+    use mantra_dex_std::farm_manager::{ExecuteMsg as FmMsg, PositionAction};
+    let positions: Vec<mantra_dex_std::farm_manager::Position> = obs.positions.iter().take(cap).cloned().collect();
+    for p in positions.iter() {
+        let mut tries: Vec<(&str, PositionAction)> = vec![("emergency withdrawal", PositionAction::Withdraw { identifier: p.identifier.clone(), emergency_unlock: Some(true) })];
+        if p.open {
+            tries.push(("full close", PositionAction::Close { identifier: p.identifier.clone(), lp_asset: None }));
+        }
+        for (what, action) in tries {
+            let snap = c.fork();
+            let op = crate::trace::Op::Fm { sender: p.receiver.to_string(), msg: FmMsg::ManagePosition { action }, funds: vec![] };
+            let o = c.exec_op(&op, None);
+            c.w.restore(&snap);
+            let step = crate::trace::Step { dt: 0, op, fault: None };
+            c.stats.bump(if o.ok() { "probe.exits.derived_exit_accepted" } else { "probe.exits.derived_exit_refused" });
+            if let Some(e) = internal_failure(&o, &step, obs) {
+                return Err(crate::sim::viol(
+                    &format!("{tag}.exit_blocked"),
+                    format!("{} of position {} ({} {}, open {}) by its owner {} fails inside the contract: {e}", what, p.identifier, p.lp_asset.amount, p.lp_asset.denom, p.open, c.w.a.name(p.receiver.as_str())),
+                ));
+            }
+        }
+    }
+    Ok(())
+}
